@@ -574,7 +574,8 @@ STUBS = {
     "big": "exec head -c 200000 /dev/zero",
     # runs that contain the forking wrapper ("children") call shutdown only once its process tree is established (the harness waits until
     # all expected descendants carry the marker): a cancel that arrives *while* a wrapper is forking is the known finding probed separately
-    "children": "sleep 30 & sleep 31 & wait",
+    # (durations of their own: "slow" and "stubborn" exec `sleep 30` too, and the establishment wait counts command lines)
+    "children": "sleep 40 & sleep 41 & wait",
     "stubborn": "trap '' TERM; exec sleep 30",
     "mid": "sleep 0.05; echo unsat",
 }
@@ -668,7 +669,7 @@ def real_worker(task):
             for t in ths:
                 t.join()
             want = 2 * sum(1 for r in recs if r["accepted"] and r["kind"] == "children")
-            nsleeps = lambda: sum(1 for c in marker_cmdlines(mark) if c in ("sleep 30", "sleep 31"))
+            nsleeps = lambda: sum(1 for c in marker_cmdlines(mark) if c in ("sleep 40", "sleep 41"))
             t_w = time.time() + 8.0
             while time.time() < t_w and nsleeps() < want:
                 time.sleep(0.01)
